@@ -252,6 +252,9 @@ pub enum DamagePlan {
     /// all single-bit flips, all truncations, `bursts` seeded burst patterns at every bit offset,
     /// `multi` seeded multi-byte damages
     Enumerate { seed: u64, bursts: u32, multi: u32 },
+    /// for frames of kilobytes: bit flips in the first 16 and the last 64 bytes of the frame
+    /// (checksum included), a dozen truncations, `multi` seeded other damages
+    Reduced { seed: u64, multi: u32 },
     One(Damage),
 }
 
@@ -274,7 +277,8 @@ mod p {
     pub const SUFFIX_ONLY_DAMAGE_ACCEPTED: usize = 6;
     pub const BURST_STRADDLES_PAYLOAD_CHECKSUM: usize = 7;
     pub const NONBYTE_WIDTH_ALG: usize = 8;
-    pub const NAMES: [&str; 9] = [
+    pub const LARGE_FRAME: usize = 9;
+    pub const NAMES: [&str; 10] = [
         "damaged_frame_accepted_with_different_consumed_length_and_matching_checksum",
         "payload_with_multi_byte_block_takes",
         "decode_ok_under_damage",
@@ -284,6 +288,7 @@ mod p {
         "suffix_only_damage_accepted",
         "burst_straddles_payload_and_checksum",
         "algorithm_width_not_a_multiple_of_8",
+        "frame_of_512_bytes_to_64_KiB",
     ];
 }
 
@@ -666,9 +671,13 @@ fn exec_c10(t: &C10Trace, out: &mut Outcome<C10Trace>) {
             return;
         }
     };
-    if plain.len() > 380 {
+    let large = plain.len() > 380;
+    if large && !matches!(t.plan, DamagePlan::Reduced { .. } | DamagePlan::One(_)) {
         out.skipped = Some("payload_too_long");
         return;
+    }
+    if large {
+        out.probe(p::LARGE_FRAME);
     }
     // the oracle agrees with the crc crate's one-shot API on this payload (else: harness error)
     let sum = bitwise_crc(alg, &plain);
@@ -681,7 +690,10 @@ fn exec_c10(t: &C10Trace, out: &mut Outcome<C10Trace>) {
     out.extra[X_FRAMES] += 1;
     out.bytes += frame.len() as u64;
     shape::with_shape(&m.shape, || {
-        let fault_free = matches!(t.plan, DamagePlan::Enumerate { .. } | DamagePlan::One(Damage::None));
+        let fault_free = matches!(
+            t.plan,
+            DamagePlan::Enumerate { .. } | DamagePlan::Reduced { .. } | DamagePlan::One(Damage::None)
+        );
         if fault_free {
             // (a) every storage kind produces plain ++ le(checksum(plain))
             let a = (o.ser_alloc)(m, t.alg);
@@ -697,6 +709,20 @@ fn exec_c10(t: &C10Trace, out: &mut Outcome<C10Trace>) {
             out.extra[X_FAULT_FREE_CHECKS] += 3;
             let s2 = s.map(|r| r.map(|(off, b)| if off == 0 { b } else { vec![] }));
             for (name, got) in [("allocvec", a), ("heapless", h), ("slice", s2)] {
+                if name == "heapless" && frame.len() > 400 {
+                    // does not fit the instantiated heapless::Vec<u8, 400>: must be refused
+                    if !matches!(got, Ok(Err(postcard::Error::SerializeBufferFull))) {
+                        out.fail(
+                            "C10",
+                            "frame-is-plain-plus-le-checksum",
+                            key("frame"),
+                            format!("a {}-byte frame into heapless::Vec<u8, 400> did not fail with SerializeBufferFull", frame.len()),
+                            Some(C10Trace { plan: DamagePlan::One(Damage::None), ..t.clone() }),
+                        );
+                        return;
+                    }
+                    continue;
+                }
                 match got {
                     Ok(Ok(b)) if b == frame => {}
                     other => {
@@ -782,7 +808,12 @@ fn exec_c10(t: &C10Trace, out: &mut Outcome<C10Trace>) {
                 let r = sut::call(|| {
                     let a = postcard::to_allocvec_crc32(&v, w32::CRCS[t.alg].digest())?;
                     let b = postcard::to_stdvec_crc32(&v, w32::CRCS[t.alg].digest())?;
-                    let c = postcard::to_vec_crc32::<_, 400>(&v, w32::CRCS[t.alg].digest())?.to_vec();
+                    // (a frame longer than 400 bytes does not fit this heapless instantiation)
+                    let c = if frame.len() <= 400 {
+                        postcard::to_vec_crc32::<_, 400>(&v, w32::CRCS[t.alg].digest())?.to_vec()
+                    } else {
+                        frame.clone()
+                    };
                     let mut buf = vec![0u8; frame.len()];
                     let d = postcard::to_slice_crc32(&v, &mut buf, w32::CRCS[t.alg].digest())?.to_vec();
                     let e = postcard::from_bytes_crc32::<DynOwned>(&x, w32::CRCS[t.alg].digest())?.0;
@@ -816,6 +847,41 @@ fn exec_c10(t: &C10Trace, out: &mut Outcome<C10Trace>) {
             DamagePlan::One(d) => {
                 if *d != Damage::None {
                     check_damaged(&c, d, out);
+                }
+            }
+            DamagePlan::Reduced { seed, multi } => {
+                let fb = c.flen * 8;
+                let bits: Vec<usize> = (0..128.min(fb)).chain(fb.saturating_sub(512)..fb).collect();
+                for b in bits {
+                    if !check_damaged(&c, &Damage::BitFlip(b), out) {
+                        return;
+                    }
+                }
+                let n = c.x0.len();
+                for l in [0, 1, c.plen / 2, c.plen.saturating_sub(1), c.plen, c.plen + 1, c.flen.saturating_sub(1), c.flen] {
+                    if l < n && !check_damaged(&c, &Damage::Truncate(l), out) {
+                        return;
+                    }
+                }
+                let mut rng = Rng::new(*seed);
+                for _ in 0..*multi {
+                    let d = match rng.below(5) {
+                        0 => Damage::ByteSet { pos: rng.usize_below(n), val: rng.next() as u8 },
+                        1 => Damage::Insert { pos: rng.usize_below(n + 1), val: rng.next() as u8 },
+                        2 => Damage::Delete { pos: rng.usize_below(n) },
+                        3 => Damage::Swap { a: rng.usize_below(n), b: rng.usize_below(n) },
+                        _ => Damage::Burst {
+                            first: rng.usize_below(fb.saturating_sub(alg.width as usize).max(1)),
+                            len: alg.width.max(2),
+                            pattern: 1 | (1u128 << (alg.width.max(2) - 1)) | (rng.u128() & ((1u128 << (alg.width.max(2) - 1)) - 1)),
+                        },
+                    };
+                    if apply(&c.x0, &d, alg.refin) == c.x0 {
+                        continue;
+                    }
+                    if !check_damaged(&c, &d, out) {
+                        return;
+                    }
                 }
             }
             DamagePlan::Enumerate { seed, bursts, multi } => {
@@ -936,6 +1002,20 @@ impl Scenario for C10 {
             Tier::Quick => 16,
             Tier::Thorough => 64,
         };
+        // now and then one long block, so that bulk paths of the CRC flavours (ser and de) are hashed
+        if rng.chance(1, 250) && !crate::runner::small() {
+            let n = *rng.pick(&[512usize, 513, 1000, 4096, 4097, 65535, 65536]);
+            let data: Vec<u8> = (0..n).map(|i| (i as u8).wrapping_mul(37).wrapping_add(11)).collect();
+            let msg = match rng.below(3) {
+                0 => Msg { shape: shape::Shape::Bytes, val: Val::Bytes(data) },
+                1 => Msg { shape: shape::Shape::Str, val: Val::Str(data.iter().map(|b| (b'a' + b % 26) as char).collect()) },
+                _ => Msg {
+                    shape: shape::Shape::Tuple(vec![shape::Shape::F64, shape::Shape::Bytes, shape::Shape::Str, shape::Shape::U8]),
+                    val: Val::Seq(vec![Val::F64(1), Val::Bytes(data), Val::Str("abc".into()), Val::Uint(9)]),
+                },
+            };
+            return C10Trace { msg, width, alg, suffix, plan: DamagePlan::Reduced { seed: rng.next(), multi: 24 } };
+        }
         C10Trace {
             msg,
             width,
@@ -964,6 +1044,7 @@ impl Scenario for C10 {
         for m in shape::shrink_msg(&t.msg) {
             let plan = match &t.plan {
                 DamagePlan::One(Damage::None) => DamagePlan::One(Damage::None),
+                _ if m.ref_encode().len() > 380 => DamagePlan::Reduced { seed: 1, multi: 8 },
                 _ => enumerate.clone(),
             };
             v.push(C10Trace { msg: m, plan, ..t.clone() });
@@ -1001,7 +1082,7 @@ impl Scenario for C10 {
             "Under damage the only alarm is the converse clause: whenever CRC-checked decoding succeeds, the bytes consumed for the value are followed by their correct checksum (computed by the harness's own bitwise CRC). The statement's corollaries (checksum-only damage, single-bit / burst <= width with unchanged length, truncation) are used as labels of a failing case, never as separate assertions, because a short CRC can legitimately match by chance when the decoded length changes.".into(),
             "Payload yardstick is the real plain encoding (to_allocvec) and plain decoding (from_bytes) of the same value, as the statement says.".into(),
             "Algorithms: 6 for u8, 6 for u16, 6 for u32, 4 for u64, CRC-82/DARC for u128, including widths that are not a multiple of 8 (CRC-5/7/12/15/24/31/40).".into(),
-            "Payloads are at most 380 bytes.".into(),
+            "Payloads are at most 380 bytes with the complete damage enumeration; one frame in 250 carries a block of 512 bytes to 64 KiB with a reduced damage set (bit flips in the first 16 and last 64 bytes, a dozen truncations, 24 seeded damages).".into(),
         ]
     }
 }
